@@ -289,7 +289,7 @@ def ops(case):
     if k == "by":
         return [f"c04.by {src_tokens(case['src'])} {case['reduce']} {case['k']}"]
     if k == "like":
-        return [f"c04.like {src_tokens(case['src'])} {case['reduce']} {src_tokens(case['ref'])}"]
+        return [f"c04.likepw {src_tokens(case['src'])} {case['reduce']} {src_tokens(case['ref'])}"]
     if k == "arith":
         return [f"c04.arith {case['operator']} {src_tokens(case['a'])} {src_tokens(case['b'])}"]
     raise ValueError(k)
@@ -832,6 +832,22 @@ def small_cont_sources(quick):
     return out
 
 
+def window_starts_sorted(T):
+    """the window starts T - delta (delta repaired the way downsampled_like does) are non-decreasing"""
+    d = [b - a for a, b in zip(T, T[1:])]
+    if not d:
+        return True
+    cps = [i for i in range(len(d) - 1) if d[i + 1] - d[i] > 0]
+    for i in cps:
+        if i + 2 < len(d):
+            d[i + 1] = d[i + 2]
+        else:
+            break
+    d = [d[0]] + d
+    s = [t - x for t, x in zip(T, d)]
+    return all(a <= b for a, b in zip(s, s[1:]))
+
+
 def cases(tier, rng):
     quick = tier == "quick"
     # ---- corpus: finding inputs and minimised past disagreements
@@ -1047,6 +1063,9 @@ def cases(tier, rng):
                     T.append(t)
                     t += sub.randint(1, 4 * dt + 10)
                 cls = "arbitrary"
+                if not window_starts_sorted(T):
+                    # np.searchsorted on the (unsorted) window starts is unspecified: outside the tie
+                    continue
             base.update({"op": "like", "src": src, "ref": tser(T, list(range(len(T)))), "reduce": red, "ref_class": cls})
         else:
             n = sub.randint(0, 30)
